@@ -91,6 +91,28 @@ Section WithFacts.
     injection E1 as ->. reflexivity.
   Qed.
 
+  (* the same for ANY chain of processors, whatever error it files on failure: coercers (COERCION_FAILED) and, since the
+     repair 89792c6, rename handlers (RENAMING_FAILED) -- the stop test looks for the error the chain itself files *)
+  Theorem failing_processor_stops_chain x ns name rest field v e errname :
+    pool_coerce name v = Some (URaise e) ->
+    forall r, coerce_chain F x ns (VStr name :: rest) field v false errname = Ok r ->
+    snd r = v /\ exists ns1, nfile F x ns field errname [exc_message e] = Ok ns1 /\ fst r = ns1.
+  Proof.
+    intros Hp r H. cbn [coerce_chain] in H.
+    destruct (coerce_one F x ns (VStr name) field v false errname) as [[ns1 v1]| |] eqn:E1;
+      cbn [bind] in H; try discriminate.
+    destruct (failing_coercer_keeps_value _ _ _ _ _ _ _ _ _ _ Hp E1) as [-> Herr].
+    destruct (Herr eq_refl) as [er [Hin [Hdp Hcode]]].
+    assert (Hhit : errlist_has_code (errcode F errname)
+                     (fetch_errors (build (f_masks F) KDoc (n_errs ns1)) (x_dp x ++ [field])) = true).
+    { rewrite <- Hcode, <- Hdp. apply recorded_error_in_tree. exact Hin. }
+    rewrite Hhit in H. injection H as <-. cbn [fst snd]. split; [reflexivity|].
+    exists ns1. split; [|reflexivity].
+    unfold coerce_one in E1. rewrite Hp in E1. cbn [andb] in E1.
+    destruct (nfile F x ns field errname [exc_message e]) as [n2| |]; cbn [bind] in E1; try discriminate.
+    injection E1 as ->. reflexivity.
+  Qed.
+
   (* rules for unknown fields are applied to unknown fields only: a schema field without a coerce rule is left alone *)
   Theorem known_field_not_coerced_by_unknown_rule x ns rsch f rs :
     assoc_get f rsch = Some rs ->
